@@ -300,16 +300,59 @@ func c17Linux(r *Run, db *SiteDB, info *types.Info, fi *FuncInfo) {
 		return
 	}
 	acc, length := parts[0], parts[1]
-	// length = sum of buffer lengths
-	okLen := false
-	for _, s := range body {
-		if rs, ok := s.(*ast.RangeStmt); ok && rs.Value != nil {
-			ast.Inspect(rs.Body, func(n ast.Node) bool {
-				if as, ok := n.(*ast.AssignStmt); ok && as.Tok == token.ADD_ASSIGN && norm(as.Lhs[0]) == length && strings.Contains(norm(as.Rhs[0]), "len("+norm(rs.Value)+")") {
-					okLen = true
+	// length = sum of buffer lengths: accumulated by a range loop over the buffers, here or in a
+	// private helper whose result initialises the bound (length := totalLen(bufs))
+	sumLoop := func(stmts []ast.Stmt, accName, overName string) bool {
+		found := false
+		for _, s := range stmts {
+			if rs, ok := s.(*ast.RangeStmt); ok && rs.Value != nil && norm(rs.X) == overName {
+				ast.Inspect(rs.Body, func(n ast.Node) bool {
+					if as, ok := n.(*ast.AssignStmt); ok && as.Tok == token.ADD_ASSIGN && norm(as.Lhs[0]) == accName && (norm(as.Rhs[0]) == "int64(len("+norm(rs.Value)+"))" || norm(as.Rhs[0]) == "len("+norm(rs.Value)+")") {
+						found = true
+					}
+					return true
+				})
+			}
+		}
+		return found
+	}
+	onlyZeroInit := func(stmts []ast.Stmt, accName string) bool {
+		ok := true
+		for _, s := range stmts {
+			if as, isAs := s.(*ast.AssignStmt); isAs && len(as.Lhs) == 1 && norm(as.Lhs[0]) == accName && as.Tok != token.ADD_ASSIGN {
+				if v, isC := constInt(info, as.Rhs[0]); !isC || v != 0 {
+					if c, isConv := unparen(as.Rhs[0]).(*ast.CallExpr); !isConv || len(c.Args) != 1 || norm(c.Args[0]) != "0" {
+						ok = false
+					}
 				}
-				return true
-			})
+			}
+		}
+		return ok
+	}
+	bufsParam := ""
+	if ps := fi.Decl.Type.Params.List; len(ps) > 0 && len(ps[0].Names) > 0 {
+		bufsParam = ps[0].Names[0].Name
+	}
+	okLen := sumLoop(body, length, bufsParam) && onlyZeroInit(body, length)
+	if !okLen {
+		for _, s := range body {
+			as, ok := s.(*ast.AssignStmt)
+			if !ok || len(as.Lhs) != 1 || len(as.Rhs) != 1 || norm(as.Lhs[0]) != length {
+				continue
+			}
+			call, ok := unparen(as.Rhs[0]).(*ast.CallExpr)
+			if !ok || len(call.Args) != 1 || norm(call.Args[0]) != bufsParam {
+				continue
+			}
+			hf := r.L.FuncOf(callee(info, call))
+			if hf == nil || hf.Decl.Body == nil || len(hf.Decl.Type.Params.List) != 1 || len(hf.Decl.Type.Params.List[0].Names) != 1 {
+				continue
+			}
+			hb := hf.Decl.Body.List
+			if ret, isRet := hb[len(hb)-1].(*ast.ReturnStmt); isRet && len(ret.Results) == 1 {
+				accN := norm(ret.Results[0])
+				okLen = sumLoop(hb, accN, hf.Decl.Type.Params.List[0].Names[0].Name) && onlyZeroInit(hb, accN)
+			}
 		}
 	}
 	r.check(okLen, "r2", "readFromBuffersLinux: the requested length is the sum of the buffers", fi.Decl.Pos(), length+" += len(buf) for every buffer", "the loop bound is not the total length of the buffers")
@@ -381,11 +424,38 @@ func c17Linux(r *Run, db *SiteDB, info *types.Info, fi *FuncInfo) {
 		return true
 	})
 	r.check(curName != "" && nAdd == 1, "r3", "readFromBuffersLinux: the accumulator advances by what recvmsg returned", fill.Pos(), acc+" += "+curName, fmt.Sprintf("the accumulator is not advanced exactly once by the count recvmsg returned (×%d)", nAdd))
-	// consumption loop template
+	// consumption loop template, over the names of the buffer list and the received count; the
+	// loop may sit in the fill loop itself or in a private helper called as bufs = h(bufs, cur)
 	var cons *ast.ForStmt
+	consBufs, consCur := bufsParam, curName
 	for _, s := range fill.Body.List {
 		if fs, ok := s.(*ast.ForStmt); ok {
 			cons = fs
+		}
+		if as, ok := s.(*ast.AssignStmt); ok && cons == nil && len(as.Lhs) == 1 && len(as.Rhs) == 1 && norm(as.Lhs[0]) == bufsParam {
+			call, ok := unparen(as.Rhs[0]).(*ast.CallExpr)
+			if !ok || len(call.Args) != 2 || norm(call.Args[0]) != bufsParam || norm(call.Args[1]) != curName {
+				continue
+			}
+			hf := r.L.FuncOf(callee(info, call))
+			if hf == nil || hf.Decl.Body == nil {
+				continue
+			}
+			var pn []string
+			for _, f := range hf.Decl.Type.Params.List {
+				for _, nm := range f.Names {
+					pn = append(pn, nm.Name)
+				}
+			}
+			hb := hf.Decl.Body.List
+			if len(pn) != 2 || len(hb) != 2 {
+				continue
+			}
+			fs, isFor := hb[0].(*ast.ForStmt)
+			ret, isRet := hb[1].(*ast.ReturnStmt)
+			if isFor && isRet && len(ret.Results) == 1 && norm(ret.Results[0]) == pn[0] {
+				cons, consBufs, consCur = fs, pn[0], pn[1]
+			}
 		}
 	}
 	if cons == nil || cons.Cond == nil {
@@ -395,22 +465,29 @@ func c17Linux(r *Run, db *SiteDB, info *types.Info, fi *FuncInfo) {
 	cparts := strings.Split(norm(cons.Cond), "<")
 	okT := false
 	why := "consumption loop is not 'for consumed := 0; consumed < cur;'"
-	if len(cparts) == 2 && cparts[1] == curName {
+	if len(cparts) == 2 && cparts[1] == consCur {
 		a := cparts[0]
-		rest := curName + "-" + a
+		rest := consCur + "-" + a
+		b0 := consBufs + "[0]"
 		var ifs *ast.IfStmt
 		if len(cons.Body.List) == 1 {
 			ifs, _ = cons.Body.List[0].(*ast.IfStmt)
 		}
-		if ifs != nil && ifs.Else != nil {
+		zeroInit := false
+		if as, ok := cons.Init.(*ast.AssignStmt); ok && len(as.Lhs) == 1 && norm(as.Lhs[0]) == a {
+			if v, isC := constInt(info, as.Rhs[0]); isC && v == 0 {
+				zeroInit = true
+			}
+		}
+		if ifs != nil && ifs.Else != nil && zeroInit {
 			c := norm(ifs.Cond)
 			thenS := norm(ifs.Body)
 			elseS := norm(ifs.Else)
-			condOK := c == "len(bufs[0])<="+rest || c == rest+">=len(bufs[0])"
-			thenOK := strings.Contains(thenS, a+"+=len(bufs[0])") && strings.Contains(thenS, "bufs=bufs[1:]") && strings.Index(thenS, a+"+=len(bufs[0])") < strings.Index(thenS, "bufs=bufs[1:]")
-			elseOK := strings.Contains(elseS, "bufs[0]=bufs[0]["+rest+":]") && strings.Contains(elseS, "break")
+			condOK := c == "len("+b0+")<="+rest || c == rest+">=len("+b0+")"
+			thenOK := strings.Contains(thenS, a+"+=len("+b0+")") && strings.Contains(thenS, consBufs+"="+consBufs+"[1:]") && strings.Index(thenS, a+"+=len("+b0+")") < strings.Index(thenS, consBufs+"="+consBufs+"[1:]")
+			elseOK := strings.Contains(elseS, b0+"="+b0+"["+rest+":]") && strings.Contains(elseS, "break")
 			okT = condOK && thenOK && elseOK
-			why = fmt.Sprintf("whole buffer dropped when len(bufs[0]) <= %s: %v; accumulate then drop: %v; partial buffer advanced by exactly %s: %v", rest, condOK, thenOK, rest, elseOK)
+			why = fmt.Sprintf("whole buffer dropped when len(%s) <= %s: %v; accumulate then drop: %v; partial buffer advanced by exactly %s: %v", b0, rest, condOK, thenOK, rest, elseOK)
 		}
 	}
 	r.check(okT, "r3", "readFromBuffersLinux: iovec consumption advances by the bytes not yet accounted for", cons.Pos(), why,
